@@ -165,6 +165,13 @@ func (t *Dense) MatMul(other Tensor, opts ...FuncOpt) (retVal *Dense, err error)
 		return
 	}
 
+	// the engine lays the product out in the data order of the operands: a reuse tensor of the other
+	// order is filled through a temporary, coordinate by coordinate
+	var dest *Dense
+	if retVal != nil && retVal.o.IsColMajor() != t.o.IsColMajor() {
+		dest, retVal = retVal, nil
+	}
+
 	if retVal == nil {
 		retVal = recycledDense(t.t, expectedShape, WithEngine(t.e))
 		if t.o.IsColMajor() {
@@ -183,6 +190,13 @@ func (t *Dense) MatMul(other Tensor, opts ...FuncOpt) (retVal *Dense, err error)
 		}
 		if err = mm.MatMul(a, other, retVal); err != nil {
 			return
+		}
+		if dest != nil {
+			if err = Copy(dest, retVal); err != nil {
+				return nil, errors.Wrapf(err, opFail, "MatMul")
+			}
+			ReturnTensor(retVal)
+			retVal = dest
 		}
 		return handleIncr(retVal, fo.Reuse(), fo.Incr(), expectedShape)
 	}
@@ -211,6 +225,12 @@ func (t *Dense) Outer(other Tensor, opts ...FuncOpt) (retVal *Dense, err error) 
 		return
 	}
 
+	// as in MatMul: a reuse tensor whose data order differs from the operands' is filled through a temporary
+	var dest *Dense
+	if retVal != nil && retVal.o.IsColMajor() != t.o.IsColMajor() {
+		dest, retVal = retVal, nil
+	}
+
 	if retVal == nil {
 		retVal = recycledDense(t.t, expectedShape, WithEngine(t.e))
 		if t.o.IsColMajor() {
@@ -232,6 +252,13 @@ func (t *Dense) Outer(other Tensor, opts ...FuncOpt) (retVal *Dense, err error) 
 		}
 		if err = op.Outer(a, other, retVal); err != nil {
 			return nil, errors.Wrapf(err, opFail, "engine.uter")
+		}
+		if dest != nil {
+			if err = Copy(dest, retVal); err != nil {
+				return nil, errors.Wrapf(err, opFail, "Outer")
+			}
+			ReturnTensor(retVal)
+			retVal = dest
 		}
 		return handleIncr(retVal, fo.Reuse(), fo.Incr(), expectedShape)
 	}
